@@ -811,6 +811,57 @@ fn run_systematic(g: &Grammar, rng: &mut Rng, rec: &mut Recorder, case: &Case) {
     }
 }
 
+/// "every value readable from the model": the model loaded from a generated document must equal
+/// (typed `==`, every field of every element) the model built from the same values through the
+/// public API by the functions generated from the reference grammar (`apibuild`)
+fn typed_twin_case(g: &Grammar, rng: &mut Rng, rec: &mut Recorder, thorough: bool) {
+    let mut cfg = crate::c01::gen_cfg_wide(rng, thorough);
+    cfg.comments_pct = 0;
+    cfg.if_data = false;
+    cfg.a2ml = false;
+    let mut gen = DocGen::new(g, cfg);
+    let doc = gen.gen_doc(rng);
+    let flat = doc.flatten();
+    let lc = if rng.coin() { LayoutCfg::c05(rng) } else { LayoutCfg::wide(rng) };
+    let text = render(&flat, &lc, rng).text;
+    rec.eval();
+    rec.bump("case.typed_twin");
+    rec.nontrivial(text.as_bytes());
+    let built = match crate::apibuild::build_file(&doc) {
+        Ok(b) => b,
+        Err(why) => {
+            rec.bump("typed_twin.not_built");
+            if rec.notes.len() < 5 {
+                rec.notes.push(format!("typed twin not built: {why}"));
+            }
+            return;
+        }
+    };
+    let strict = rng.coin();
+    match load_str(&text, strict) {
+        Err((sig, detail)) => rec.violation(&sig, &detail, witness_text("C04", &text, "typed twin")),
+        Ok(Err(e)) => rec.violation(
+            &format!("typed twin: document generated from the reference grammar is rejected: {}", err_class(&e)),
+            &e.to_string(),
+            witness_text("C04", &text, "typed twin"),
+        ),
+        Ok(Ok((loaded, _))) => {
+            for t in &flat.elem_tags {
+                rec.bump(&format!("twin_kind.{t}"));
+            }
+            if loaded != built {
+                rec.violation(
+                    "typed twin: the loaded model differs from the model built through the API from the same values",
+                    &format!("a = built through the API, b = loaded: {}", crate::c01::model_diff(&built, &loaded)),
+                    witness_text("C04", &text, "typed twin"),
+                );
+            } else {
+                rec.bump("typed_twin.equal");
+            }
+        }
+    }
+}
+
 pub fn run(args: &Args, rec: &mut Recorder) {
     rec.rule = "evaluation = one generated document loaded in strict and non-strict mode and judged against the frozen reference grammar: systematic part = every element kind x (valid form with sentinel values read back from the model, each optional sub-element, each dropped parameter, duplicated optional, missing required, wrong block form, unknown enum word, every version-gated sub-element / enum item x six declared versions); random part = whole documents generated for one version and declared at another. distinct_nontrivial = distinct texts by content hash".into();
     rec.assumptions.push("the frozen copy of the specification DSL (ref/a2l_grammar.dsl) is the reference for A2L 1.7.1; values are read back through the Debug view of the public model".into());
@@ -835,6 +886,10 @@ pub fn run(args: &Args, rec: &mut Recorder) {
                 rec.bump(&format!("kind.{t}"));
             }
             run_systematic(&g, rng, rec, c);
+            return None;
+        }
+        if case % 4 == 1 {
+            typed_twin_case(&g, rng, rec, args.thorough);
             return None;
         }
         // random whole documents, declared at a random version
@@ -874,4 +929,5 @@ pub fn run(args: &Args, rec: &mut Recorder) {
             }
         }
     }
+    rec.floor("typed_twin.equal", 100);
 }
